@@ -12,6 +12,7 @@ import AdaptiveModel.Drv.LND
 import AdaptiveModel.Drv.Integ
 import AdaptiveModel.Drv.Prims
 import AdaptiveModel.Drv.Quad
+import AdaptiveModel.Drv.Choose
 /-!
 Line-protocol driver: `lake env lean --run Driver.lean < ops.txt`.
 Each input line is `<component> <op> <args…>`; one output line per input line.
@@ -45,6 +46,7 @@ def stepAll (a : All) (line : String) : All × String :=
   | "save" :: rest => (a, SaveFs.Drv.stepLine rest)
   | "prims" :: rest => (a, Prims.Drv.stepLine rest)
   | "quad" :: rest => (a, Quad.Drv.stepLine rest)
+  | "choose" :: rest => (a, Choose.Drv.stepLine rest)
   | _ => (a, "bad-component")
 
 partial def loop (h : IO.FS.Stream) (out : IO.FS.Stream) (a : All) : IO Unit := do
